@@ -16,9 +16,21 @@
      s body   s;<sorted rounds without I tokens>;c=<ctl letters>      (no Break fired)
               b;n=<rounds>;sub=<0|1>;c=<ctl letters>                 (a Break fired)
    <readable> is a native check of the harness (the handed inspector reads the handed value);
-   both columns expect 1. *)
+   both columns expect 1.
+
+   Histories (harness/emit/op_loophist.go): a caller makes many Loop calls and hands ONE key buffer of
+   its own to all of them.
+   input:  <Type>;p;lhist;<buf0>;<step>|<step>|...;<value>
+     buf0    what the key buffer holds before the first call: n (a nil slice), e (empty, capacity 8), f (24 bytes of text)
+     step    loop;<canon>;<wants>;<ctls>;<path>                     Loop over the object
+             xloop;<Type2>;<value2>;<canon>;<wants>;<ctls>;<path>   Loop over a partner object of another unit
+   observation:  <step>#<step>#...   a step = <observation of op loop>;look=<0|1>
+   <look> is a native check of the harness: every key text handed over in that call, looked up by reflection in
+   the collection the path denotes, is the key of the element handed over with it; both columns expect 1.
+   The model column is Model/ApiSeq.run over the store of the history (the object, the partners); the spec column is the
+   demand of the property for every call of the history. *)
 From Coq Require Import List Bool String Ascii ZArith Arith.
-From Verif Require Import Util Ints Strconv Floats Node GoSrc Value Outcome Nav Loop LoopSpec Shapes EnumVal GenUnits.
+From Verif Require Import Util Ints Strconv Floats Node GoSrc Value Outcome Nav Loop LoopSpec Api ApiSeq Shapes EnumVal GenUnits.
 Import ListNotations.
 Local Open Scope string_scope.
 Local Open Scope list_scope.
@@ -102,16 +114,20 @@ Definition noscript : script := {| wants := fun _ => true; ctls := fun _ => CNon
 Definition has_unk (tr : trace) : bool :=
   existsb (fun e => match e with ESetKey t _ => String.eqb t "?" | _ => false end) tr.
 
-(* the model column *)
-Definition pr_model (d : ldemand) (sc scfull : script) (n : node) (v : val) (path : list string) : string :=
-  match loop_method sc id_ord n (APtr (Some v)) path with
+(* the text of an outcome; [fullo]: the outcome of the complete iteration (for the sub= field) *)
+Definition pr_outcome (d : ldemand) (o fullo : out trace) : string :=
+  match o with
   | Panic k => "PANIC:" ++ pr_pkind k
   | Fall tr => "?"
   | Ret tr e =>
     if has_unk tr then "?" else
-    let full := match loop_method scfull id_ord n (APtr (Some v)) path with Ret t _ => t | _ => [] end in
+    let full := match fullo with Ret t _ => t | _ => [] end in
     "e=" ++ pr_err e ++ ";" ++ pr_trace (sorted_of d) (abstract (kabs_of d) tr) (abstract (kabs_of d) full)
   end.
+
+(* the model column *)
+Definition pr_model (d : ldemand) (sc scfull : script) (n : node) (v : val) (path : list string) : string :=
+  pr_outcome d (loop_method sc id_ord n (APtr (Some v)) path) (loop_method scfull id_ord n (APtr (Some v)) path).
 
 (* the spec column *)
 Definition pr_spec (d : ldemand) (sc scfull : script) : string :=
@@ -248,5 +264,158 @@ Definition hostile_lines (u : string * ty) : list string :=
     [("1", ""); ("0", ""); ("1", "B")])
   (hostile_values n).
 
+
+(* ---------- histories: Loop calls that share ONE caller-owned key buffer ----------
+   The property speaks of every Loop call; a caller hands the same key buffer to all its calls.  A history is
+   a first Loop over a collection A, a Loop over another collection B - of the same object, or of a partner object
+   of another unit - whose keys get into the buffer in another way, and A again: the demand is checked for every call.
+   Key classes = the ways the emitted code fills the buffer: string (the key's own bytes), slice (the index), int,
+   uint, float, bool (a rendering).  The first call runs under a rotation of the control patterns (Break at every
+   position: another element is the last one whose key the buffer saw). *)
+Definition kclass (d : ldemand) : string :=
+  match d with
+  | LSlice _ _ => "slice"
+  | LMap kn _ _ =>
+    match node_skind kn with
+    | Some SString => "string"
+    | Some (SInt i) => if is_signed i then "int" else "uint"
+    | Some SByte => "uint"
+    | Some (SF32 | SF64) => "float"
+    | Some SBool => "bool"
+    | None => "other"
+    end
+  | _ => "none"
+  end.
+
+Definition hclasses : list string := ["string"; "slice"; "int"; "uint"; "float"; "bool"].
+
+(* string keys longer than any other key text (an index, a number, true/false): whatever is rendered next into a
+   buffer that still has to do with such a key fits into it *)
+Definition hlong_key (k : val) : val :=
+  match k with
+  | VStr s => VStr (s ++ "-0123456789abcdefghij")
+  | VPtr (Some (VStr s)) => VPtr (Some (VStr (s ++ "-0123456789abcdefghij")))
+  | _ => k
+  end.
+Fixpoint hlong_keys (v : val) {struct v} : val :=
+  match v with
+  | VStruct fs => VStruct ((fix go (l : list val) : list val := match l with [] => [] | x :: r => hlong_keys x :: go r end) fs)
+  | VSlice n es e => VSlice n ((fix go (l : list val) : list val := match l with [] => [] | x :: r => hlong_keys x :: go r end) es) e
+  | VMap n kvs => VMap n ((fix go (l : list (val * val)) : list (val * val) :=
+                             match l with [] => [] | (k, x) :: r => (hlong_key k, hlong_keys x) :: go r end) kvs)
+  | VPtr (Some x) => VPtr (Some (hlong_keys x))
+  | _ => v
+  end.
+
+(* the paths that denote a non-empty collection *)
+Definition live_colls (n : node) (v : val) : list (list string) :=
+  filter (fun p => Nat.ltb 0 (demand_len (loop_demand n v p)))
+         (map fst (filter (fun pt : tagged => String.eqb (snd pt) "end") (paths n v))).
+
+(* a partner: unit, node, value, a path that denotes a collection of at least two elements *)
+Definition hpartner := (string * node * val * list string)%type.
+
+Definition hpartner_in (cls : string) (u : string * ty) : list hpartner :=
+  let n := root_node u in
+  take 1 (flat_map (fun v0 =>
+            let v := hlong_keys v0 in
+            map (fun p => (fst u, n, v, p))
+                (filter (fun p => let d := loop_demand n v p in String.eqb (kclass d) cls && Nat.ltb 1 (demand_len d))
+                        (live_colls n v)))
+          (rev (variants n))).
+Fixpoint find_hpartner (cls : string) (us : list (string * ty)) : list hpartner :=
+  match us with
+  | [] => []
+  | u :: r => match hpartner_in cls u with [] => find_hpartner cls r | l => l end
+  end.
+(* one partner per key class, from the first unit that has such a collection *)
+Definition hpartners (us : list (string * ty)) : list (string * hpartner) :=
+  flat_map (fun cls => map (fun pa => (cls, pa)) (find_hpartner cls us)) hclasses.
+
+Record hstep := HStep {
+  hs_text : string;              (* the step in the input *)
+  hs_step : ApiSeq.step;         (* the step of the model: object of the store, call *)
+  hs_d : ldemand;                (* what the path denotes in that object *)
+  hs_sc : script; hs_scfull : script;
+  hs_full : out trace }.         (* the complete iteration (canonical text under Break) *)
+
+Definition mk_hstep (kw : string) (obj : nat) (n : node) (v : val) (w c : string) (path : list string) : hstep :=
+  let d := loop_demand n v path in
+  HStep (kw ++ ";" ++ canon_of d ++ ";" ++ w ++ ";" ++ c ++ ";" ++ path_text path)%string
+        (obj, KLoop (script_of w c) id_ord path) d (script_of w c) (script_of w "")
+        (loop_method (script_of w "") id_ord n (APtr (Some v)) path).
+
+Definition with_look (t : string) : string := if String.prefix "PANIC" t then t else (t ++ ";look=1")%string.
+
+(* the model column: the answers of Model/ApiSeq.run on the store of the history *)
+Definition hist_model (s : ApiSeq.store) (hs : list hstep) : string :=
+  let texts := map (fun x : hstep * (option answer * ApiSeq.store) =>
+                      match fst (snd x) with
+                      | Some (AnsTrace o) => pr_outcome (hs_d (fst x)) o (hs_full (fst x))
+                      | _ => "?"
+                      end)
+                   (combine hs (ApiSeq.run s (map hs_step hs))) in
+  if existsb (String.eqb "?") texts then "?" else join "#" (map with_look texts).
+
+(* the spec column: the demand of the property for every call *)
+Definition hist_spec (hs : list hstep) : string :=
+  join "#" (map (fun h => (pr_spec (hs_d h) (hs_sc h) (hs_scfull h) ++ ";look=1")%string) hs).
+
+(* what can come between the two calls over A: key class, a collection of the object itself?, the step under a control pattern *)
+Definition hcand := (string * bool * (string -> hstep))%type.
+Definition hc_class (x : hcand) : string := fst (fst x).
+
+Definition hist_lines (pas : list (string * hpartner)) (u : string * ty) : list string :=
+  let n := root_node u in
+  let us := fold_left (fun a c => a + nat_of_ascii c) (list_ascii_of_string (fst u)) 0 in
+  let pobjs : ApiSeq.store :=
+    map (fun cp : string * hpartner => let '(_, (_, n2, v2, _)) := cp in (n2, APtr (Some v2))) pas in
+  let pcands : list hcand :=
+    map (fun jp : nat * (string * hpartner) =>
+           let '(j, (cls, (u2, n2, v2, p2))) := jp in
+           (cls, false, fun c => mk_hstep ("xloop;" ++ u2 ++ ";" ++ pr_val true v2)%string (S j) n2 v2 "1" c p2))
+        (combine (seqn (List.length pas)) pas) in
+  flat_map (fun iv : nat * val =>
+    let '(vi, v0) := iv in
+    let v := hlong_keys v0 in
+    let colls := map (fun p => (p, loop_demand n v p)) (live_colls n v) in
+    let store : ApiSeq.store := (n, APtr (Some v)) :: pobjs in
+    let own : list hcand :=
+      map (fun pd : list string * ldemand => (kclass (snd pd), true, fun c => mk_hstep "loop" 0 n v "1" c (fst pd))) colls in
+    flat_map (fun ia : nat * (list string * ldemand) =>
+      let '(ai, (pa, da)) := ia in
+      let ca := kclass da in
+      let cands := filter (fun x => negb (String.eqb (hc_class x) ca)) (own ++ pcands) in
+      let pick (cls : string) : list hcand := take 1 (filter (fun x => String.eqb (hc_class x) cls) cands) in
+      (* after a string-keyed map: every other way of filling the buffer; after any other collection: a string-keyed
+         map and one of the others in rotation *)
+      let bs : list hcand :=
+        if String.eqb ca "string" then flat_map pick hclasses
+        else pick "string" ++
+             match filter (fun x => negb (String.eqb (hc_class x) "string")) cands with
+             | [] => []
+             | x :: r => [nth_mod x (x :: r) (us + vi + ai)]
+             end in
+      map (fun ib : nat * hcand =>
+        let '(bi, (cb, isown, mkb)) := ib in
+        let r := us + vi + ai + bi in
+        let c1 := nth_mod "" (ctl_patterns (demand_len da)) r in
+        (* which round of a map comes first is the oracle's: alternating wishes for slices only *)
+        let w1 := if negb (sorted_of da) && Nat.eqb (Nat.modulo r 5) 4 then "01" else "1" in
+        let c2 := nth_mod "" [""; "C"; "NB"; "B"] r in
+        let c3 := if Nat.even r then "" else "C" in
+        let b0 := nth_mod "e" ["e"; "n"; "f"] r in
+        let hs := [mk_hstep "loop" 0 n v w1 c1 pa; mkb c2; mk_hstep "loop" 0 n v "1" c3 pa] in
+        let model := hist_model store hs in
+        (fst u ++ "." ++ nat_to_string vi ++ ".lhist." ++ nat_to_string ai ++ "." ++ nat_to_string bi ++ tab ++
+         "lhist,A:" ++ ca ++ ",B:" ++ cb ++ "," ++ (if isown then "own" else "partner") ++ ",buf:" ++ b0 ++ "," ++
+         script_tag w1 c1 ++ "," ++ mtag model ++ tab ++
+         fst u ++ ";p;lhist;" ++ b0 ++ ";" ++ join "|" (map hs_text hs) ++ ";" ++ pr_val true v ++ tab ++
+         model ++ tab ++ hist_spec hs)%string)
+      (combine (seqn (List.length bs)) bs))
+    (combine (seqn (List.length colls)) colls))
+  (combine (seqn (List.length (variants n))) (variants n)).
+
 Definition cases (tier : Z) (seed : Z) : list string :=
-  flat_map case_lines (emit_units tier) ++ flat_map hostile_lines (emit_units tier).
+  flat_map case_lines (emit_units tier) ++ flat_map hostile_lines (emit_units tier) ++
+  (let pas := hpartners (emit_units tier) in flat_map (hist_lines pas) (emit_units tier)).
